@@ -77,7 +77,7 @@ CLAIMS = {
         text=('Unbounded deductive proof (Verus): decision table of handle_record_error (truncate only if enabled AND (UnexpectedEof OR tail all zeros); otherwise the error is returned; never Ok(false)); '
               'Chunk::open stops at the first error and, when it did not truncate, every byte of the file was consumed by successful decodes; RecordIterator::next yields nothing after an error and stops exactly at the file size; '
               'WALRecord::decode returns Ok only for bytes whose checksum matches (soundness: consumed bytes == enc(record)), unknown tag/version/checksum mismatch are InvalidData; ensure_consecutive_chunks: Err iff gap, called for every chunk. '
-              'KNOWN FINDING D11: a non-newest chunk may be truncated before the refused open. Not decided: D12 (length-prefix corruption looks like an incomplete tail; inherent to the format).'),
+              'KNOWN FINDING D11: a non-newest chunk may be truncated before the refused open. KNOWN FINDING D12: the truncated tail is not guaranteed to be an incomplete record or zeros (a corrupted length prefix looks like an incomplete tail; inherent to the format).'),
         note=TRUST + ' Assumed: CRC-32 detects the alterations the property ranges over (crc is uninterpreted); codeq/byteorder/user codec contracts.',
         technique='Verus decision-table and loop contracts over a ghost file content, on extracted code',
         design='5 C09',
